@@ -233,6 +233,13 @@ class Run:
         self.violations = []      # (replay_path, no_input_found)
         self.known = []
         self.notes = []
+        d = os.path.join(BUILD, 'replay', pid)
+        if os.path.isdir(d):
+            for f in os.listdir(d):
+                try:
+                    os.unlink(os.path.join(d, f))
+                except OSError:
+                    pass
 
     def replay(self, name, payload):
         d = os.path.join(BUILD, 'replay', self.pid)
